@@ -3,7 +3,8 @@
 cd /verif
 jobs=${1:-3}
 ls -d seeded/C*/ | sed 's#seeded/##; s#/##' > /tmp/reseed_list.txt
-run() { d=$1; p=${d%%-*}; out=$(SEED_LINES=1 tools/seedtest.sh /verif/seeded/$d/patch.diff $p 2>&1 | tail -3); rc=$(echo "$out" | grep -o "rc=[0-9]*" | tail -1); echo "$d $rc $(echo "$out" | grep -E "INCONCLUSIVE|PATCH" | head -1 | cut -c1-150)"; }
+# a change is caught when any of the checks named in its meta.json (normally its own property's) reports it
+run() { d=$1; best=""; for p in $(python3 -c "import json,sys; m=json.load(open('/verif/seeded/$d/meta.json')); print(' '.join(sorted(m.get('checks') or ['${d%%-*}'], key=lambda c: c != '${d%%-*}')))"); do out=$(SEED_LINES=1 tools/seedtest.sh /verif/seeded/$d/patch.diff $p 2>&1 | tail -3); rc=$(echo "$out" | grep -o "rc=[0-9]*" | tail -1); best="$rc by $p"; [ "$rc" = "rc=1" ] && break; done; echo "$d $best $(echo "$out" | grep -E "INCONCLUSIVE|PATCH" | head -1 | cut -c1-150)"; }
 export -f run
 cat /tmp/reseed_list.txt | xargs -P $jobs -I{} bash -c 'run {}' > /tmp/reseed_all.log 2>&1
 echo "not detected:"; grep -v "rc=1" /tmp/reseed_all.log
